@@ -172,6 +172,40 @@ def check_union(repo, res, rule):
     _guard(chain, res, rule, 'single-parent chain inherits transitively', SCOPE,
            'a region with one parent must inherit its complete table')
 
+    def deep_chain():
+        # ten single-parent regions; `y` is bound in regions 0, 3 and 6, `z` only in region 0
+        flows = [m.flow('p0', top)]
+        bound = {}
+        for i in range(1, 10):
+            flows.append(m.flow('p%d' % i, top, [flows[-1]]))
+        for i in (0, 3, 6):
+            bound[i] = m.name('y', (i + 1, 0))
+            m.add(flows[i], bound[i])
+        z = m.name('z', (1, 4))
+        m.add(flows[0], z)
+        wb = {}
+        for i in (1, 4):            # `w`: both bindings far above the last readers
+            wb[i] = m.name('w', (i + 1, 8))
+            m.add(flows[i], wb[i])
+        bad = []
+        for i in range(1, 10):
+            want = wb[max(k for k in wb if k <= i)].oid
+            g = m.describe(m.lookup(m.get(flows[i], 'names'), 'w'))
+            if g != frozenset([want]):
+                bad.append('w from region %d: %s instead of the binding in region %d' % (i, sorted(g or []), max(k for k in wb if k <= i)))
+        for i in range(10):
+            want = bound[max(k for k in bound if k <= i)].oid
+            g = m.describe(m.lookup(m.get(flows[i], 'names'), 'y'))
+            if g != frozenset([want]):
+                bad.append('from region %d: %s' % (i, sorted(g or [])))
+            gz = m.describe(m.lookup(m.get(flows[i], 'names'), 'z'))
+            if gz != frozenset([z.oid]):
+                bad.append('z from region %d: %s' % (i, sorted(gz or [])))
+        return not bad, 'a name rebound in regions 0, 3 and 6 of a chain of ten: the nearest binding above the reader must win; %s' \
+            % ('; '.join(bad[:3]) or 'ok')
+    _guard(deep_chain, res, rule, 'the nearest binding wins along a long single-parent chain', SCOPE,
+           'along a chain of nested regions the binding of the nearest enclosing region shadows the outer ones, at any depth')
+
     def nested_multi():
         a, b, c = m.flow('a', top), m.flow('b', top), m.flow('c', top)
         ba, bb, bc = m.name('x', (1, 0)), m.name('x', (2, 0)), m.name('x', (3, 0))
@@ -520,6 +554,32 @@ def check_scopes(repo, res, rule_entry, rule_methods):
     _guard(nested_class_skips_outer_body, res, rule_methods, 'methods of a nested class skip every enclosing class body', SCOPE,
            'ClassScope.names must delegate to the names its parent *exposes to nested scopes* (parent.names), not to the '
            'parent\'s own region table')
+
+    def nested_class_body_skips_outer_body():
+        # class Settings: default = 1;  class Meta: value = default   -> the compiler resolves `default` globally
+        top, tf, gx, gy = build()
+        a = m.scope('ClassScope', top, top)
+        af = m.flow('class', a)
+        a.attrs['flow'] = af
+        ax = m.name('x', (5, 4))
+        only_outer = m.name('only_in_outer_class', (6, 4))
+        m.add(af, ax)
+        m.add(af, only_outer)
+        b = m.scope('ClassScope', a, top)
+        bf = m.flow('class', b)
+        b.attrs['flow'] = bf
+        bz = m.name('z', (8, 8))
+        m.add(bf, bz)
+        x = m.describe(m.lookup(m.names_at(bf, (9, 8)), 'x'))
+        o = m.lookup(m.names_at(bf, (9, 8)), 'only_in_outer_class')
+        z = m.describe(m.lookup(m.names_at(bf, (9, 8)), 'z'))
+        y = m.describe(m.lookup(m.names_at(bf, (9, 8)), 'y'))
+        return x == frozenset([gx.oid]) and o is None and z == frozenset([bz.oid]) and y == frozenset([gy.oid]), \
+            'body of a class nested in a class: x (bound in the outer class body and globally) resolves to %s, must be the global %s; a ' \
+            'name bound only in the outer class body resolves to %r, must be unknown; own z -> %s; global y -> %s' \
+            % (sorted(x or []), gx.oid, o, sorted(z or []), sorted(y or []))
+    _guard(nested_class_body_skips_outer_body, res, rule_methods, 'the body of a nested class does not see the enclosing class body', SCOPE,
+           'a class body is not an enclosing scope for the classes nested in it: their bodies resolve free names globally')
 
     def method_sees_global_declared_binding():
         top, tf, gx, gy = build()
